@@ -55,6 +55,11 @@ structure Holds (cfg : Cfg) : Prop where
   restart : ∀ reg n e, WF reg → (ResolvesTo cfg (reload cfg reg) n e ↔ ResolvesTo cfg reg n e)
   /-- …also when the last save of settings.json failed part-way: what was persisted before still applies -/
   crashSafe : ∀ reg n e, WF reg → (ResolvesTo cfg (afterTornSave cfg reg) n e ↔ ResolvesTo cfg reg n e)
+  /-- every ACKNOWLEDGED registration survives a restart: after any history of registrations (some of whose saves
+      were torn) and deregistrations, settings.json holds, for every key whose last operation was an untorn
+      registration, exactly that registration -/
+  ackDurable : ∀ h, (∀ op ∈ h, op.pat.NoSlash) →
+      ∀ k x, specDisk h k = some x → entryFor (runRD cfg ⟨[], [], false⟩ h).disk k = x
   /-- after ANY history of registrations, re-registrations and deregistrations (from any reachable
       registry) the entry stored for every key is its LAST registration, nothing after a deregistration -/
   registered : ∀ reg h, WF reg → (∀ op ∈ h, op.pat.NoSlash) →
@@ -119,11 +124,12 @@ theorem resolve_restart (cfg : Cfg) (hp : cfg.persistsAll = true) (reg : List En
 /-- C21 holds for every reachable registry when the lookup ranks all matches strictly and
     every field is persisted. -/
 theorem holds_ranked (cfg : Cfg) (hg : cfg.goodRank = true) (hp : cfg.persistsAll = true)
-    (hc : cfg.unchangedChecksType = true) (ha : cfg.saveAtomic = true) : Holds cfg :=
+    (hc : cfg.unchangedChecksType = true) (ha : cfg.saveAtomic = true) (hd : cfg.unchangedChecksDisk = true) : Holds cfg :=
   ⟨fun reg reg' n hw p => resolve_perm cfg hg reg reg' n hw p,
    fun reg n e hw h => resolve_most_specific cfg hg reg n e hw h,
    fun reg n e hw => resolve_restart cfg hp reg n e hw,
    fun reg n e hw => by simp only [afterTornSave, ha, if_true]; exact resolve_restart cfg hp reg n e hw,
+   fun h hns => (acknowledged_is_durable cfg hc hd ha h hns).diskSpec,
    fun reg h hw hns => (registry_follows_history cfg hc h reg hw hns).1⟩
 
 theorem entryFor_nil : entryFor [] = fun _ => none := funext fun _ => rfl
@@ -158,7 +164,7 @@ theorem resolves_to_last_registration (cfg : Cfg) (hg : cfg.goodRank = true) (hc
 def bA : Bytes := [0x61]
 def bB : Bytes := [0x62]
 def bC : Bytes := [0x63]
-def fixedCfg : Cfg := ⟨.ranked, .gt, 2, 1, true, true, true, true, true, true⟩
+def fixedCfg : Cfg := ⟨.ranked, .gt, 2, 1, true, true, true, true, true, true, true⟩
 
 /-- exact, swamp-wildcard, realm-wildcard and double-wildcard patterns of sanctuary "a" -/
 def overlapping : List Entry :=
@@ -311,6 +317,29 @@ theorem refutes_torn_save (cfg : Cfg) (hg : cfg.goodRank = true) (h : cfg.saveAt
   rw [show e.pat = ⟨bA, bB, bC⟩ from rfl, hd] at ho
   exact absurd ho (by decide)
 
+/-! ### an acknowledged registration that never reaches the file -/
+
+/-- the save of `a/b/c` is torn (the pattern is in the runtime map, not in the file); the client registers it again —
+    the call is acknowledged but the "not changed" early return, which looks at the runtime map only, skips the save -/
+def lostHistory : List POp := [.torn ⟨bA, bB, bC⟩ false 2 1 8192, .reg ⟨bA, bB, bC⟩ false 2 1 8192]
+
+theorem acknowledged_registration_lost_witness (cfg : Cfg) (ha : cfg.saveAtomic = true) (hd : cfg.unchangedChecksDisk = false) :
+    (runRD cfg ⟨[], [], false⟩ lostHistory).disk = [] ∧
+    specDisk lostHistory (canon ⟨bA, bB, bC⟩) = some (some ⟨⟨bA, bB, bC⟩, ⟨false, 2, 1, 8192⟩⟩) := by
+  constructor
+  · simp [runRD, lostHistory, stepRD, earlyRD, unchanged, regForce, hasKey, entryOf, ha, hd]
+  · decide
+
+theorem refutes_ack_lost (cfg : Cfg) (ha : cfg.saveAtomic = true) (hd : cfg.unchangedChecksDisk = false) : ¬ Holds cfg := by
+  intro hh
+  have w := acknowledged_registration_lost_witness cfg ha hd
+  have := hh.ackDurable lostHistory (by
+    intro op hop
+    simp only [lostHistory, List.mem_cons, List.mem_nil_iff, or_false] at hop
+    rcases hop with rfl | rfl <;> decide) _ _ w.2
+  rw [w.1] at this
+  simp [entryFor] at this
+
 /-! ### the re-registration quirk of the original RegisterPattern -/
 
 /-- a/x/p is registered in-memory (idle 4) and then persistent with idle 4, interval 0, size 0 -/
@@ -354,29 +383,35 @@ structure Facts where
   persistsSize : Tri
   unchangedChecksType : Tri   -- RegisterPattern's early return also requires the stored entry to be persistent
   saveAtomic : Tri            -- SaveSettingsToFilesystem writes a temp file and renames it over settings.json
+  unchangedChecksDisk : Tri   -- the early return also requires s.model.Patterns[key] to equal the new registration
+  comparePatternExact : Tri   -- name.ComparePattern is the exact, case-sensitive comparison `matchesPat` models
+  summonResolvesFresh : Tri   -- hydra.createNewSwamp resolves the settings with GetBySwampName each time (no memo keyed by the name)
   deriving Repr
 
 def cfgOf (f : Facts) : Cfg :=
   ⟨f.lookup, f.cmp, (f.wRealm.getD 0 : Nat), (f.wSwamp.getD 0 : Nat),
-   f.persistsInMem.isYes, f.persistsIdle.isYes, f.persistsWi.isYes, f.persistsSize.isYes, f.unchangedChecksType.isYes, f.saveAtomic.isYes⟩
+   f.persistsInMem.isYes, f.persistsIdle.isYes, f.persistsWi.isYes, f.persistsSize.isYes, f.unchangedChecksType.isYes, f.saveAtomic.isYes, f.unchangedChecksDisk.isYes⟩
 
 def persistKnown (f : Facts) : Bool :=
   f.persistsInMem != .unknown && f.persistsIdle != .unknown && f.persistsWi != .unknown && f.persistsSize != .unknown &&
-  f.unchangedChecksType != .unknown && f.saveAtomic != .unknown
+  f.unchangedChecksType != .unknown && f.saveAtomic != .unknown && f.unchangedChecksDisk != .unknown &&
+  f.comparePatternExact == .yes && f.summonResolvesFresh == .yes
 
 def classify (f : Facts) : Verdict :=
-  if !persistKnown f then .undetermined "a persisted field of the pattern model was not recognised"
+  if !persistKnown f then .undetermined "a persisted field of the pattern model, name.ComparePattern or the settings resolution of hydra.createNewSwamp was not recognised"
   else match f.lookup with
   | .iteratesMap =>
     .violated (["C21-map-order-lookup"] ++ (if (cfgOf f).persistsAll then [] else ["C21-restart-loses-field"]) ++
       (if (cfgOf f).unchangedChecksType then [] else ["C21-reregistration-ignored"]) ++
-      (if (cfgOf f).saveAtomic then [] else ["C21-settings-save-not-atomic"]))
+      (if (cfgOf f).saveAtomic then [] else ["C21-settings-save-not-atomic"]) ++
+      (if (cfgOf f).unchangedChecksDisk then [] else ["C21-acknowledged-registration-lost"]))
   | .ranked =>
     if (cfgOf f).goodRank then
-      (if (cfgOf f).persistsAll && (cfgOf f).unchangedChecksType && (cfgOf f).saveAtomic then .holds
+      (if (cfgOf f).persistsAll && (cfgOf f).unchangedChecksType && (cfgOf f).saveAtomic && (cfgOf f).unchangedChecksDisk then .holds
        else .violated ((if (cfgOf f).persistsAll then [] else ["C21-restart-loses-field"]) ++
                        (if (cfgOf f).unchangedChecksType then [] else ["C21-reregistration-ignored"]) ++
-      (if (cfgOf f).saveAtomic then [] else ["C21-settings-save-not-atomic"])))
+      (if (cfgOf f).saveAtomic then [] else ["C21-settings-save-not-atomic"]) ++
+      (if (cfgOf f).unchangedChecksDisk then [] else ["C21-acknowledged-registration-lost"])))
     else .undetermined "the ranking in GetBySwampName is not a strict most-specific order"
   | .unknown => .undetermined "lookup loop of GetBySwampName not recognised"
 
@@ -399,7 +434,7 @@ theorem classify_sound (f : Facts) :
         split
         · rename_i hp
           simp only [Bool.and_eq_true] at hp
-          exact holds_ranked _ hg hp.1.1 hp.1.2 hp.2
+          exact holds_ranked _ hg hp.1.1.1 hp.1.1.2 hp.1.2 hp.2
         · rename_i hp
           refine ⟨?_, fun h => by simp at h⟩
           simp only [Bool.and_eq_true, not_and, Bool.not_eq_true] at hp
@@ -408,7 +443,10 @@ theorem classify_sound (f : Facts) :
           | true =>
             cases h2 : (cfgOf f).unchangedChecksType with
             | false => exact refutes_reregistration _ h2
-            | true => exact refutes_torn_save _ hg (hp ⟨h1, h2⟩)
+            | true =>
+              cases h3 : (cfgOf f).saveAtomic with
+              | false => exact refutes_torn_save _ hg h3
+              | true => exact refutes_ack_lost _ h3 (hp ⟨⟨h1, h2⟩, h3⟩)
       · trivial
     | unknown => trivial
 
